@@ -1,6 +1,11 @@
-/* Stub for the library's logging front end (real definition: src/highlevel/bidib_highlevel_util.c).
- * Logging has no effect on any property; format-string evaluation is not modelled (assumption). */
+/* Logging front end (real definition: src/highlevel/bidib_highlevel_util.c) compiled out in verification TUs:
+ * logging has no effect on any property, and format-string evaluation is not modelled (assumption).
+ * The real prototype is pulled in first (include guard), then every call `syslog_libbidib(...)` of the real source
+ * expands to nothing.  Arguments of logging calls are therefore NOT evaluated - reads that occur only inside a logging
+ * call (e.g. a table lookup used as a %s argument) are checked in the dedicated C12 units, which do not use this header. */
 #ifndef VP_SYSLOG_H
 #define VP_SYSLOG_H
-void syslog_libbidib(int priority, const char *format, ...) { (void)priority; (void)format; }
+#include <syslog.h>
+#include "include/highlevel/bidib_highlevel_util.h"
+#define syslog_libbidib(...) ((void)0)
 #endif
